@@ -72,3 +72,22 @@ def add_midqueries(rng, case, prob=0.3, k=4):
         return case
     case["midqueries"] = sorted(int(x) for x in rng.integers(lo, case["T"], size=int(rng.integers(1, k + 1))))
     return case
+
+
+def add_queries(rng, case, prob=0.5, dense_prob=0.3):
+    """get_last_point() between rounds: at a few random rounds or (dense) after every round"""
+    if rng.random() >= prob or case["T"] < 4:
+        return case
+    a, T = case["algo"], case["T"]
+    lo = 0
+    if a == "StroquOOL":
+        return case
+    if C.family(a) == "GPO":
+        lo = C.gpo_N_H(case["n"], case["params"]["rhomax"])[1] + 1
+    if lo >= T - 1:
+        return case
+    if rng.random() < dense_prob:
+        case["queries"] = list(range(lo, T))
+    else:
+        case["queries"] = sorted(int(x) for x in rng.integers(lo, T, size=int(rng.integers(1, 6))))
+    return case
